@@ -11,6 +11,9 @@ CONSTANTS
   SameAddr <- ProbedSameAddr
   MaxTx = 1
   MaxBlocks = 3
+  EnvKinds <- KindsEnv
+  Paths <- PathsOne
+  EnvFromIndex = FALSE
   LazyFromRaw = TRUE
 VIEW view
 CONSTRAINT InitOut
